@@ -71,6 +71,11 @@ def gen_generation(rnd, index, ending):
         for i in range(rnd.randint(1, 2)):
             gen["payloads"].append({"id": "stub%d" % i, "flavour": "asyncio", "when": "queued", "program": rnd.choice([[["beat", 0.01, None]], [["block"]]]),
                                     "cleanup": {"kind": "absorb", "times": rnd.choice([1, 1, 2])}})
+    if population == "services" and rnd.random() < 0.5:
+        # ... and several hundred trio services that exist before the runner starts: the first sweep hands them all over at once
+        for k in range(rnd.choice([300, 450, 600])):
+            gen["services"].append({"id": "early%d" % k, "flavour": "trio", "program": [["sleep", 0.005]], "create": "before"})
+        gen["early_services"] = True
     if population == "many":
         # a large population of sleeping coroutines: ending the runtime must not take time per payload
         for i in range(rnd.choice([100, 150, 200])):
@@ -223,6 +228,14 @@ def gen_case(rnd, spec):
         gens.append(gen_generation(rnd, g, ending))
         if g > 0 and rnd.random() < 0.3:
             gens[-1]["reuse_runner"] = True  # the very same runner instance accepts once more
+        if g > 0 and gens[g - 1]["meta"]["second_accepts"] and any(op == ["thread", [["second_accept", "cleanup"]]] for op in gens[g - 1]["script"]):
+            # the runner that was refused in the previous generation (and shut down by its owner's cleanup) accepts now: it must
+            # really accept - a service defined after its start is started
+            gens[-1]["use_rejected_runner"] = True
+            gens[-1].pop("reuse_runner", None)
+            gens[-1]["services"].append({"id": "probe", "flavour": rnd.choice(common.FLAVOURS), "program": [["sleep", 0.01]]})
+            at = next(k for k, op in enumerate(gens[-1]["script"]) if op[0] == "wait_running") + 1
+            gens[-1]["script"][at:at] = [["service", "probe"], ["wait_event", "start", "svc:probe", 4.0]]
     inject = common.inject_conf(rnd, 0.8)
     doubles = any(g["meta"]["ending"] == "shutdown_double" for g in gens)
     if rnd.random() < (0.75 if doubles else 0.3):
@@ -233,6 +246,12 @@ def gen_case(rnd, spec):
         if rnd.random() < 0.5:
             # ... and the loop lingers between its last turn and close(): a stop() request can arrive in between
             inject["hot"]["Runner.close"] = rnd.choice([0.02, 0.05, 0.1])
+    if any(g.get("early_services") for g in gens):
+        # hundreds of services make every sweep of the accept loop thousands of statements long: with a delay injected at
+        # statement boundaries the loop crawls (one sweep took 8 s) and answers nothing meanwhile - the harness's doing
+        inject = None
+    elif inject and any(g["meta"]["population"] == "services" for g in gens):
+        inject = dict(inject, p_yield=min(inject.get("p_yield", 0.0), 0.1), p_sleep=0.0)
     return {"watchdog": 45, "inject": inject, "generations": gens,
             "meta": {"endings": [g["meta"]["ending"] for g in gens]}}
 
@@ -380,6 +399,10 @@ def judge(case, run, result):
             problems.append(("generation %d: a new runner did not reach running after the previous accept ended by %s (accept: %s)"
                              % (g, prev_ending, why), None))
             break
+        if started.get("rejected_runner"):
+            result.count("runners_accepting_after_they_had_been_refused_and_shut_down")
+            if [e for e in run.of("wait-timeout", gen=g) if e.get("awaited") == ["start", "svc:probe"]]:
+                problems.append(("generation %d: a runner that had been refused earlier (and shut down by its owner) reported running, but a service defined afterwards was not started within 4 s: it does not accept" % g, None))
         if g > 0:
             result.count("restarts_after_" + prev_ending)
             if gen.get("reuse_runner"):
@@ -431,6 +454,8 @@ def judge(case, run, result):
         result.count("ending_" + ending)
         if meta["population"] == "services":
             result.count("endings_while_services_are_being_created")
+            if gen.get("early_services"):
+                result.count("generations_starting_with_300_to_600_trio_services")
         if meta["population"] == "many":
             result.count("endings_with_100_to_200_sleeping_coroutines")
         if meta["population"] == "stubborn":
@@ -508,7 +533,7 @@ def run_shard(spec):
 
 
 def finish(total, tier):
-    need = ["histories_completed", "polling_loops_checked", "restarts_of_the_same_runner_instance", "concurrent_accepts_rejected", "shutdown_calls_returned", "race_outcome_returned", "forced_late_stop_schedules_checked", "simultaneous_accept_schedules_checked", "endings_while_a_thread_payload_kept_adopting", "endings_with_asyncio_payloads_that_must_be_cancelled_repeatedly", "accepts_on_the_accepting_runner_itself_rejected", "accepts_on_the_accepting_runner_rejected_while_a_shutdown_request_was_pending",
+    need = ["histories_completed", "polling_loops_checked", "restarts_of_the_same_runner_instance", "concurrent_accepts_rejected", "shutdown_calls_returned", "race_outcome_returned", "forced_late_stop_schedules_checked", "generations_starting_with_300_to_600_trio_services", "runners_accepting_after_they_had_been_refused_and_shut_down", "simultaneous_accept_schedules_checked", "endings_while_a_thread_payload_kept_adopting", "endings_with_asyncio_payloads_that_must_be_cancelled_repeatedly", "accepts_on_the_accepting_runner_itself_rejected", "accepts_on_the_accepting_runner_rejected_while_a_shutdown_request_was_pending",
             "endings_with_trio_payloads_calling_into_asyncio", "rejected_runners_shut_down_beside_the_active_one", "endings_with_100_to_200_sleeping_coroutines", "endings_while_services_are_being_created", "generations_with_accept_delay_0", "shutdowns_with_asyncio_payload_failing_on_cancellation", "shutdowns_with_trio_payload_failing_on_cancellation"]
     need += ["ending_" + e for e in ENDINGS] + ["restarts_after_" + e for e in ENDINGS]
     for name in need:
